@@ -1,5 +1,6 @@
 import SockModel.Model.UriLemmas
 import SockModel.Legacy.UriRegex
+import SockModel.Spec.Uri
 /-!
 # C11  Address construction is total: a value or an exception for every string
 
@@ -253,6 +254,19 @@ theorem dissect_rejects_iff_regex_nonmatch (s : Bytes) :
       · rw [h] at h'; cases h'
   · intro ht
     simp [dissect, dissectRaw, ht]
+
+namespace C11
+/-- the predicate `./check C11` evaluates on the implementation's observations (`Spec/Uri.lean`: `specStep`
+in mode `.totality` - "a value or an exception derived from std::exception; no crash, signal, hang, foreign
+exception, throwing accessor") accepts every trace of the model: `parseUri` / `parseHostServ` followed by an
+ARBITRARY name service (`getaddrinfo` may answer anything, `getnameinfo` may print anything), for every
+history of `uri` / `pair` constructions and literal / service-name groups of any length over arbitrary byte
+strings.  No hypothesis.  So a `spec` verdict of `./check C11` is a difference between implementation and
+model, and the oracle is never stricter than the model. -/
+theorem spec_holds_on_model {α : Type} [DecidableEq α] (ns : NameService α) (history : List (Op α)) :
+    ∃ s, C11.specRun {} (modelTrace ns history) = .ok s :=
+  C11.model_satisfies_spec ns history
+end C11
 
 /-! ### non-vacuity / examples (each class of outcome is inhabited) -/
 
